@@ -645,6 +645,37 @@ def socket_framing(ctx, o, msg):
            how='one send(fd, message, strlen(message), ...) on a SOCK_DGRAM socket')
 
 
+def _is_devlog_path(o, e, path, depth=0):
+    """the socket the devlog record goes to: the literal "/dev/log", or something the configuration can set - the
+    output's own argument, or a string field of the configuration record whose compiled-in default is "/dev/log" -
+    with "/dev/log" wherever the code falls back to a literal"""
+    e = strip(e)
+    if e is None or depth > 4:
+        return False
+    if e.k == 'StringLiteral':
+        return e.get('s') == path
+    if e.k == 'ConditionalOperator':
+        return _is_devlog_path(o, e.ch[1], path, depth + 1) and _is_devlog_path(o, e.ch[2], path, depth + 1)
+    if e.k == 'DeclRefExpr':
+        r = e['ref']
+        if r.get('kind') == 'parm':
+            base = getattr(o, 'original', o)
+            return len(base.params) > 1 and r.get('id') == base.params[1]['id']
+        if r.get('kind') == 'var' and not r.get('staticStorage'):
+            from engine.dataflow import def_exprs
+            defs = def_exprs(o, r['id'])
+            return bool(defs) and all(_is_devlog_path(o, x, path, depth + 1) for x in defs)
+        return False
+    if e.k == 'MemberExpr' and e.get('record') == 'snoopy_configuration_t' and PROG[0] is not None:
+        SD = PROG[0].func('snoopy_configuration_setDefaults')
+        if SD is None:
+            return False
+        dflt = [strip(n.ch[1]) for n in SD.body.walk() if n.k == 'BinaryOperator' and n.get('op') == '=' and
+                strip(n.ch[0]).k == 'MemberExpr' and strip(n.ch[0]).get('member') == e.get('member')]
+        return bool(dflt) and all(x is not None and x.k == 'StringLiteral' and x.get('s') == path for x in dflt)
+    return False
+
+
 def devlog_framing(ctx, o, msg, path):
     chk = ctx.chk
     if PROG[0] is not None:
@@ -660,7 +691,7 @@ def devlog_framing(ctx, o, msg, path):
         d = dele[0]
         buf = decl_of(arg(d, 0))
         p = strip(arg(d, 1))
-        ok = buf is not None and p.k == 'StringLiteral' and p['s'] == path
+        ok = buf is not None and _is_devlog_path(o, p, path)
         detail = 'delegation is %s, expected (<record buffer>, "%s")' % (render(d), path)
         if ok:
             bc = [c for c in sn if root((decl_of(arg(c, 0)) or {}).get('id')) == root(buf['id'])]
